@@ -188,7 +188,12 @@ func (l *Lexer) embeddedCodeToken() token.Token {
 	case ')':
 		return l.rightParenthesesToken()
 	case '"', '\'':
-		return l.newToken(token.STR, l.readString())
+		str, terminated := l.readString()
+		if !terminated {
+			return l.newToken(token.ILLEGAL, str)
+		}
+
+		return l.newToken(token.STR, str)
 	case '<':
 		if l.peekChar() == '=' {
 			l.tokenBegins()
@@ -438,7 +443,9 @@ func (l *Lexer) isPotentiallyLong(tok token.TokenType) bool {
 		(tok == token.CONTINUE && l.char == 'I' && l.peekChar() == 'f')
 }
 
-func (l *Lexer) readString() string {
+// readString reads a string literal; the second result is false when
+// the input ends before the closing quote
+func (l *Lexer) readString() (string, bool) {
 	quote := l.char
 	result := ""
 
@@ -447,7 +454,7 @@ func (l *Lexer) readString() string {
 
 	if l.char == quote {
 		l.readChar() // skip the last quote
-		return result
+		return result, true
 	}
 
 	pos := l.pos
@@ -464,10 +471,14 @@ func (l *Lexer) readString() string {
 
 	result = l.input[pos:l.pos]
 
+	if l.char == 0 {
+		return result, false
+	}
+
 	l.readChar() // skip the last quote
 
 	// remove slashes before quotes
-	return strings.ReplaceAll(result, "\\"+string(quote), string(quote))
+	return strings.ReplaceAll(result, "\\"+string(quote), string(quote)), true
 }
 
 func (l *Lexer) readNumber() (string, bool) {
